@@ -137,6 +137,13 @@ func (m *C01) OnStep(w *ops.World, st *ops.Step) {
 			m.S.Violate("delta-"+st.Kind, assetKind(w, a), m.Hist, st.I, "asset %s ΔS=%s: %s (step %s %v)", a, d, fmt.Sprintf(f, x...), st.Kind, st.P)
 		}
 		if st.Fail {
+			if st.Via == "keeper" && st.Panic != "" {
+				// a keeper call of the harness that panics (checked-arithmetic overflow with astronomically large pools)
+				// has no production counterpart that keeps the partial writes: inside a transaction baseapp rolls the
+				// whole transaction back, inside EndBlock the chain stops (C11 judges that)
+				m.S.Eval("keeper-step-panic-not-judged")
+				continue
+			}
 			if !d.IsZero() {
 				bad("failed operation changed the ledger sum")
 			}
